@@ -93,6 +93,12 @@ def smear_direction_rule(chk, repo, clause):
     chk.ob(clause, 'D-guard', fs.key, 'random direction exactly when angle is None', g_ok,
            'random path taken when ' + '; '.join(conds_str(p) for p in rnd) + ' (a truthiness test would also discard angle=0)',
            fs.loc())
+    # ... and only then: with an angle given the call is a pure function of its arguments - a number drawn and thrown away
+    # still advances the global generator, and whatever draws from it next (cosmic rays, another smear) changes
+    drawn = [f'{e.data.get("callee")} at {e.loc()}' for p in det_ for e in p.events
+             if e.kind == 'call' and str(e.data.get('callee', '')).startswith(('ext:numpy.random.', 'ext:random.'))]
+    chk.ob(clause, 'E-global', fs.key, 'with an angle given nothing is drawn from the global random generator', (not drawn) if det_ else None,
+           ('; '.join(sorted(set(drawn))[:2]) + ' is evaluated although the angle was given') if drawn else '', fs.loc())
     a_ok = bool(det_) and all(any(is_app(a, 'deg2rad') and a[2][0] == S('angle') for a in nf.value_atoms(p.ret)) for p in det_)
     chk.ob(clause, 'D-flow', fs.key, 'a given angle (degrees) is what the kernel is rotated by', a_ok, '', fs.loc())
     # ... by one and the same angle: the sine and the cosine of the projection take the same argument (in radians)
